@@ -171,7 +171,11 @@ theorem cleanupLoop_get_frame (now : Nat) (hs : Bool) (k m : Nat) (fl : Faults) 
           · rfl
           · split
             · exact FV.FlwA.get_set_ne _ _ _ _ hg
-            · rw [ih', FV.FlwA.get_erase_ne _ _ _ hx, FV.FlwA.get_set_ne _ _ _ _ hg]
+            · split
+              · exact FV.FlwA.get_set_ne _ _ _ _ hg
+              · split
+                · exact FV.FlwA.get_set_ne _ _ _ _ hg
+                · rw [ih', FV.FlwA.get_erase_ne _ _ _ hx, FV.FlwA.get_set_ne _ _ _ _ hg]
       · rw [ih']
 
 /-! ### the loop never loses a plain file silently -/
@@ -226,9 +230,17 @@ theorem cleanupLoop_lossless (now : Nat) (hs : Bool) (k m : Nat) (fl : Faults)
               · subst hres
                 rw [FV.FlwA.get_set_ne _ _ _ _ hne] at hout
                 exact absurd hout hin
-              · subst hres
-                rw [hfr { n with gz := true } rfl, FV.FlwA.get_erase_ne _ _ _ hne.symm,
-                  FV.FlwA.get_set_self]
+              · split at hres
+                · subst hres
+                  rw [FV.FlwA.get_set_ne _ _ _ _ hne] at hout
+                  exact absurd hout hin
+                · split at hres
+                  · subst hres
+                    rw [FV.FlwA.get_set_ne _ _ _ _ hne] at hout
+                    exact absurd hout hin
+                  · subst hres
+                    rw [hfr { n with gz := true } rfl, FV.FlwA.get_erase_ne _ _ _ hne.symm,
+                      FV.FlwA.get_set_self]
         · subst hres
           rw [hfr n rfl] at hout
           exact absurd hout hin
@@ -265,10 +277,19 @@ theorem cleanupLoop_lossless (now : Nat) (hs : Bool) (k m : Nat) (fl : Faults)
               · subst hres
                 rw [FV.FlwA.get_set_ne _ _ _ _ hg] at hout
                 exact absurd hout hin
-              · subst hres
-                exact shift rfl (ih hrest _ _ _ _ hm'
-                  (by rw [FV.FlwA.get_erase_ne _ _ _ hx, FV.FlwA.get_set_ne _ _ _ _ hg]; exact hin)
-                  hout)
+              · split at hres
+                · subst hres
+                  rw [FV.FlwA.get_set_ne _ _ _ _ hg] at hout
+                  exact absurd hout hin
+                · split at hres
+                  · subst hres
+                    rw [FV.FlwA.get_set_ne _ _ _ _ hg] at hout
+                    exact absurd hout hin
+                  · subst hres
+                    exact shift rfl (ih hrest _ _ _ _ hm'
+                      (by rw [FV.FlwA.get_erase_ne _ _ _ hx, FV.FlwA.get_set_ne _ _ _ _ hg]
+                          exact hin)
+                      hout)
         · subst hres
           exact shift rfl (ih hrest _ _ _ _ hm' hin hout)
 
